@@ -66,6 +66,11 @@ SPECS: List[FieldSpec] = [
     FieldSpec("EFFFIELDS", "src/exo/rewrite/new_eff.py", "stmts_effs", ("s",), "LoopIR", "stmt", only_kinds=("expr", "stmt"), ignore={
         ("Free", "*"): "Free does not exist before the backend",
     }, props=("C01", "C09")),
+    # front-end bounds effects: every expression child contributes its reads
+    FieldSpec("EFFFIELDS", "src/exo/frontend/boundscheck.py", "CheckBounds.eff_e", ("e",), "LoopIR", "expr", only_kinds=("expr",), ignore={
+        ("Read", "idx"): "index positions hold index-typed expressions (no buffer reads); they are lifted into the location",
+        ("WindowExpr", "idx"): "index positions hold index-typed expressions (no buffer reads)",
+    }, props=("C03",)),
     # unification
     FieldSpec("UNIFYFIELDS", U, "Unification.unify_stmts", ("ps", "bs"), "LoopIR", "stmt", ignore={
         ("For", "loop_mode"): "annotation only",
